@@ -75,6 +75,9 @@ type txDB struct {
 	branches []string
 	schemas  []*txSchema
 	W, H     map[txTarget]*vsql.Table
+	// HP: the table at the first parent of the branch head (what AS OF 'HEAD~1' reads); no entry
+	// when the parent commit has no such table (the head is the first commit with tables)
+	HP map[txTarget]*vsql.Table
 	// version counters of the committed state, bumped whenever W / H of a target changes
 	verW, verH map[txTarget]int
 	// commit hash of every branch head (part of the snapshot: "did the head move since my
@@ -83,7 +86,7 @@ type txDB struct {
 }
 
 func newTxDB(branches []string, schemas []*txSchema) *txDB {
-	d := &txDB{branches: branches, schemas: schemas, W: map[txTarget]*vsql.Table{}, H: map[txTarget]*vsql.Table{},
+	d := &txDB{branches: branches, schemas: schemas, W: map[txTarget]*vsql.Table{}, H: map[txTarget]*vsql.Table{}, HP: map[txTarget]*vsql.Table{},
 		verW: map[txTarget]int{}, verH: map[txTarget]int{}, headHash: map[string]string{}}
 	for _, b := range branches {
 		for _, s := range schemas {
@@ -114,7 +117,7 @@ func (d *txDB) schema(table string) *txSchema {
 }
 
 func (d *txDB) clone() *txDB {
-	c := &txDB{branches: d.branches, schemas: d.schemas, W: map[txTarget]*vsql.Table{}, H: map[txTarget]*vsql.Table{},
+	c := &txDB{branches: d.branches, schemas: d.schemas, W: map[txTarget]*vsql.Table{}, H: map[txTarget]*vsql.Table{}, HP: map[txTarget]*vsql.Table{},
 		verW: map[txTarget]int{}, verH: map[txTarget]int{}, headHash: map[string]string{}}
 	for b, h := range d.headHash {
 		c.headHash[b] = h
@@ -122,6 +125,9 @@ func (d *txDB) clone() *txDB {
 	for _, t := range d.targets() {
 		c.W[t] = d.W[t].Clone()
 		c.H[t] = d.H[t].Clone()
+		if hp, ok := d.HP[t]; ok {
+			c.HP[t] = hp.Clone()
+		}
 		c.verW[t] = d.verW[t]
 		c.verH[t] = d.verH[t]
 	}
@@ -133,6 +139,12 @@ func (d *txDB) setW(t txTarget, n *vsql.Table) {
 		d.verW[t]++
 	}
 	d.W[t] = n
+}
+
+// newHead records a new head commit of t's branch: the old head table becomes the parent's.
+func (d *txDB) newHead(t txTarget, n *vsql.Table) {
+	d.HP[t] = d.H[t]
+	d.setH(t, n)
 }
 
 func (d *txDB) setH(t txTarget, n *vsql.Table) {
@@ -286,8 +298,9 @@ type txSess struct {
 	// mode; its next statement is a ROLLBACK
 	staleTx bool
 
-	checkout string // branch selected with dolt_checkout (default main)
-	revdb    string // branch selected with USE `db/branch`, "" when the base database is current
+	spelledDB string // how this session spelled the database name when it connected
+	checkout  string // branch selected with dolt_checkout (default main)
+	revdb     string // branch selected with USE `db/branch`, "" when the base database is current
 
 	inTx        bool
 	snap        *txDB
